@@ -454,7 +454,15 @@ def make_index(rng, tc, mode):
     elif mode == "out-of-range":
         (I if rng.random() < 0.5 else O)[rng.randrange(ne)] = rng.choice([-1, ne, ne + 1, 2 ** 31 - 1])
     elif mode == "duplicate" and ne > 1:
-        I[0] = I[1]
+        which = rng.randrange(4)
+        if which == 0:
+            I[0] = I[1]
+        elif which == 1:
+            I[-1] = I[0]
+        elif which == 2:
+            O[-1] = O[0]   # the tail of the removal order (edges ending at L) is only seen by reverse traversal
+        else:
+            O[0] = O[-1]
     elif mode == "stale":
         pass  # built before a later row edit: handled by the caller ordering
     tc.indexes = tskit.TableCollectionIndexes(edge_insertion_order=I, edge_removal_order=O)
